@@ -1,30 +1,30 @@
 import Avl.Basic
-namespace Tree
+namespace ATree
 macro "avl_close" : tactic => `(tactic| (and_intros <;> first | assumption | trivial | omega))
 variable {α : Type}
 
-@[simp] theorem ht_nil : (nil : Tree α).ht = 0 := rfl
-@[simp] theorem height_nil : (nil : Tree α).height = 0 := rfl
-@[simp] theorem slope_nil : (nil : Tree α).slope = 0 := rfl
+@[simp] theorem ht_nil : (nil : ATree α).ht = 0 := rfl
+@[simp] theorem height_nil : (nil : ATree α).height = 0 := rfl
+@[simp] theorem slope_nil : (nil : ATree α).slope = 0 := rfl
 @[simp] theorem ht_node (i k) (v : α) (h s l r) : (node i k v h s l r).ht = h := rfl
 @[simp] theorem slope_node (i k) (v : α) (h s l r) : (node i k v h s l r).slope = s := rfl
 @[simp] theorem height_node (i k) (v : α) (h s l r) : (node i k v h s l r).height = max l.height r.height + 1 := rfl
 @[simp] theorem inorder_node (i k) (v : α) (h s l r) : (node i k v h s l r).inorder = l.inorder ++ (k, v) :: r.inorder := rfl
-@[simp] theorem avl_nil : Avl (nil : Tree α) := trivial
+@[simp] theorem avl_nil : Avl (nil : ATree α) := trivial
 theorem avl_node (i k) (v : α) (h s l r) : Avl (node i k v h s l r) ↔
    (Avl l ∧ Avl r ∧ h = max (height l) (height r) + 1 ∧ s = (height l : Int) - (height r : Int) ∧ -1 ≤ s ∧ s ≤ 1) := Iff.rfl
 
-theorem upd_node (i k) (v : α) (h s) (l r : Tree α) (hl : Avl l) (hr : Avl r) :
+theorem upd_node (i k) (v : α) (h s) (l r : ATree α) (hl : Avl l) (hr : Avl r) :
     upd (node i k v h s l r) = node i k v (max l.height r.height + 1) ((l.height : Int) - r.height) l r := by
   simp [upd, ht_eq_height hl, ht_eq_height hr]
 
 /-- what a rebalancing step guarantees -/
-def Good (t' : Tree α) (k : Int) (v : α) (l r : Tree α) : Prop :=
+def Good (t' : ATree α) (k : Int) (v : α) (l r : ATree α) : Prop :=
   Avl t' ∧ t'.inorder = l.inorder ++ (k, v) :: r.inorder ∧
     (t'.height = max l.height r.height + 1 ∨
       (t'.height = max l.height r.height ∧ ((l.height : Int) - r.height = 2 ∨ (l.height : Int) - r.height = -2)))
 
-theorem shiftr_spec (i k) (v : α) (h s) (l r : Tree α) (hl : Avl l) (hr : Avl r)
+theorem shiftr_spec (i k) (v : α) (h s) (l r : ATree α) (hl : Avl l) (hr : Avl r)
     (e : (l.height : Int) - r.height = 2) : Good (shiftr (node i k v h s l r)) k v l r := by
   unfold Good
   cases l with
@@ -54,7 +54,7 @@ theorem shiftr_spec (i k) (v : α) (h s) (l r : Tree α) (hl : Avl l) (hr : Avl 
         avl_close
       · omega
 
-theorem shiftl_spec (i k) (v : α) (h s) (l r : Tree α) (hl : Avl l) (hr : Avl r)
+theorem shiftl_spec (i k) (v : α) (h s) (l r : ATree α) (hl : Avl l) (hr : Avl r)
     (e : (l.height : Int) - r.height = -2) : Good (shiftl (node i k v h s l r)) k v l r := by
   unfold Good
   cases r with
@@ -85,7 +85,7 @@ theorem shiftl_spec (i k) (v : α) (h s) (l r : Tree α) (hl : Avl l) (hr : Avl 
       · omega
 
 /-- the general rebalancing lemma, used by both insert and remove -/
-theorem rebal_spec (i k) (v : α) (h s) (l r : Tree α) (hl : Avl l) (hr : Avl r)
+theorem rebal_spec (i k) (v : α) (h s) (l r : ATree α) (hl : Avl l) (hr : Avl r)
     (hb : (l.height : Int) - r.height ≤ 2 ∧ -2 ≤ (l.height : Int) - r.height) :
     Good (rebal (upd (node i k v h s l r))) k v l r := by
   rw [upd_node _ _ _ _ _ _ _ hl hr]
@@ -104,7 +104,7 @@ theorem rebal_spec (i k) (v : α) (h s) (l r : Tree α) (hl : Avl l) (hr : Avl r
 
 /-- `ins` keeps the tree AVL with correct stored fields; the continue flag tells exactly whether the
     subtree grew; in-order sequence is the sorted insertion. -/
-theorem ins_spec (newId : Nat) (k : Int) (v : α) (t : Tree α) (hA : Avl t) :
+theorem ins_spec (newId : Nat) (k : Int) (v : α) (t : ATree α) (hA : Avl t) :
     Avl (ins newId k v t).1 ∧ (ins newId k v t).1.height = t.height + (if (ins newId k v t).2 then 1 else 0) := by
   induction t with
   | nil => simp [ins, avl_node]
@@ -153,4 +153,4 @@ theorem ins_spec (newId : Nat) (k : Int) (v : α) (t : Tree α) (hA : Avl t) :
           · simp [il.2]
       · simp only [Bool.false_eq_true, if_false, Nat.add_zero, height_node, and_true]
         rw [avl_node]; exact ⟨hl, hr, hh, hs, hs1, hs2⟩
-end Tree
+end ATree
